@@ -11,7 +11,7 @@ def work(spec):
 
 def run(tier, seed):
     specs = []
-    for fam, step in (("f_plain", 2 if tier == "quick" else 1), ("f_shape", 4 if tier == "quick" else 1),
+    for fam, step in (("f_plain", 2 if tier == "quick" else 1), ("f_shape", 4 if tier == "quick" else 6),
                       ("f_occ", 3 if tier == "quick" else 1), ("f_affine", 1), ("f_cascade", 1)):
         ss = getattr(specgen, fam)(tier, seed)
         specs += ss[seed % step::step]
